@@ -314,7 +314,7 @@ theorem chunkLoop_spec {w n : Nat} {fs : Bool} {radix p : Nat} (hn : 1 ≤ n)
             (digs fs (rest.drop p)) := by
       have e : digs fs rest = digs fs (rest.take p) ++ digs fs (rest.drop p) := by
         rw [← digs_append, List.take_append_drop]
-      rw [e, horner_append, horner_eq, digs_length, htl]
+      rw [e, horner_append, horner_eq radix (digs fs (rest.take p)), digs_length, htl]
     rw [ho.1]
     generalize hm : mulDigitLoop w (radix ^ p) out 0 = m at *
     have hum := U_lt m1
@@ -417,6 +417,239 @@ theorem chunkLoop_spec {w n : Nat} {fs : Bool} {radix p : Nat} (hn : 1 ≤ n)
             have := Nat.le_trans (Nat.le_mul_of_pos_right _ h3) this
             omega
         · exact ⟨_, rfl, fun _ => rfl⟩
+
+/-! ### the general arm -/
+
+/-- what `from_buf_radix_internal` answers for a most-significant-first byte view of the digits:
+    `Good` = the value when every byte is a digit, any error with `InvalidDigit` forced for short
+    inputs otherwise -/
+def ArmSpec (w n : Nat) (fs : Bool) (radix : Nat) (view : List Nat) (res : Outcome PRes) : Prop :=
+  (hasInvalid fs radix view = false →
+    res = .ok (if valueOf radix (digs fs view) < M w n
+      then .ok (ofNat w n (valueOf radix (digs fs view))) else .err .posOverflow)) ∧
+  (hasInvalid fs radix view = true →
+    ∃ k, res = .ok (.err k) ∧ (radix ^ view.length ≤ M w n → k = .invalidDigit))
+
+theorem generalArm_spec {w n : Nat} {fs be : Bool} {buf : List Nat} {radix off len : Nat}
+    (hn : 1 ≤ n) (hr : 2 ≤ radix) (h256 : radix < 256) (hB : radix < B w)
+    (hlen : len = buf.length - off) (hpos : 0 < len) :
+    ArmSpec w n fs radix ((if be then buf else buf.reverse).drop off)
+      (generalArm w n fs be buf radix off len) := by
+  obtain ⟨p, hbp, hp1, hp2, _⟩ := radixBase_spec hr hB
+  have h256' : radix % 256 = radix := Nat.mod_eq_of_lt h256
+  have hB' : radix % B w = radix := Nat.mod_eq_of_lt hB
+  unfold generalArm
+  simp only [hbp]
+  generalize hview : (if be then buf else buf.reverse).drop off = view
+  have hvl : view.length = len := by
+    rw [← hview, List.length_drop]; split <;> simp [hlen]
+  generalize hsp : (if (len % p == 0) = true then p else len % p) = split
+  have hs1 : 1 ≤ split ∧ split ≤ p ∧ split ≤ len ∧ p ∣ len - split := by
+    have hmod := Nat.mod_lt len (show 0 < p by omega)
+    have hle := Nat.mod_le len p
+    by_cases h0 : len % p = 0
+    · simp only [h0, beq_self_eq_true, if_true] at hsp
+      subst hsp
+      have hd : p ∣ len := Nat.dvd_of_mod_eq_zero h0
+      exact ⟨hp1, Nat.le_refl _, Nat.le_of_dvd hpos hd, Nat.dvd_sub hd (Nat.dvd_refl p)⟩
+    · have : (len % p == 0) = false := by simpa using h0
+      simp only [this, Bool.false_eq_true, if_false] at hsp
+      subst hsp
+      refine ⟨by omega, by omega, hle, ?_⟩
+      exact ⟨len / p, by have := Nat.div_add_mod len p; omega⟩
+  obtain ⟨hs1, hs2, hs3, hs4⟩ := hs1
+  have htl : (view.take split).length = split := by rw [List.length_take]; omega
+  have hpw : radix ^ split ≤ radix ^ p := Nat.pow_le_pow_right (by omega) hs2
+  have hacc := accLoop_spec (fs := fs) h256' hB' (view.take split) 0 (by rw [htl]; omega)
+  have hinv := hasInvalid_take_drop fs radix split view
+  have hdl : (view.drop split).length = len - split := by rw [List.length_drop, hvl]
+  have hsplitV : valueOf radix (digs fs view)
+      = horner radix (valueOf radix (digs fs (view.take split))) (digs fs (view.drop split)) := by
+    have e : digs fs view = digs fs (view.take split) ++ digs fs (view.drop split) := by
+      rw [← digs_append, List.take_append_drop]
+    rw [valueOf_eq_horner, e, horner_append]; rfl
+  rw [hacc]
+  constructor
+  · intro hv
+    rw [hv] at hinv
+    have hv1 : hasInvalid fs radix (view.take split) = false := by
+      cases h : hasInvalid fs radix (view.take split)
+      · rfl
+      · rw [h] at hinv; simp at hinv
+    have hv2 : hasInvalid fs radix (view.drop split) = false := by
+      cases h : hasInvalid fs radix (view.drop split)
+      · rfl
+      · rw [h] at hinv; simp at hinv
+    have hlt : valueOf radix (digs fs (view.take split)) < radix ^ split := by
+      have := valueOf_lt (r := radix) (digs fs (view.take split))
+        (by have := hasInvalid_false_iff.mp hv1; rwa [h256'] at this)
+      rwa [digs_length, htl] at this
+    rw [hv1]
+    simp only [Bool.false_eq_true, if_false]
+    rw [← valueOf_eq_horner]
+    have hwf := WF_fromDigit (w := w) hn (show valueOf radix (digs fs (view.take split)) < B w by omega)
+    have := (chunkLoop_spec (fs := fs) hn h256' hB' hr hp1 hp2 view.length (view.drop split) _ hwf
+      (by rw [hdl]; exact hs4) (by rw [hdl, hvl]; omega)).1 hv2
+    rw [this, U_fromDigit _ hn, hsplitV]
+  · intro hv
+    rw [hv] at hinv
+    cases hv1 : hasInvalid fs radix (view.take split)
+    · have hv2 : hasInvalid fs radix (view.drop split) = true := by
+        rw [hv1] at hinv; simpa using hinv.symm
+      have hlt : valueOf radix (digs fs (view.take split)) < radix ^ split := by
+        have := valueOf_lt (r := radix) (digs fs (view.take split))
+          (by have := hasInvalid_false_iff.mp hv1; rwa [h256'] at this)
+        rwa [digs_length, htl] at this
+      simp only [Bool.false_eq_true, if_false]
+      rw [← valueOf_eq_horner]
+      have hwf := WF_fromDigit (w := w) hn
+        (show valueOf radix (digs fs (view.take split)) < B w by omega)
+      obtain ⟨k, k1, k2⟩ := (chunkLoop_spec (fs := fs) hn h256' hB' hr hp1 hp2 view.length
+        (view.drop split) _ hwf (by rw [hdl]; exact hs4) (by rw [hdl, hvl]; omega)).2 hv2
+      refine ⟨k, k1, fun hs => k2 ?_⟩
+      rw [U_fromDigit _ hn, hdl]
+      rw [hvl, pow_split hs3] at hs
+      exact Nat.le_trans (Nat.mul_le_mul_right _ (by omega)) hs
+    · exact ⟨_, rfl, fun _ => rfl⟩
+
+/-! ### the power-of-two arm: bit packing -/
+
+theorem valueOfLE_append (r : Nat) : ∀ (a b : List Nat),
+    valueOfLE r (a ++ b) = valueOfLE r a + r ^ a.length * valueOfLE r b
+  | [], b => by simp [valueOfLE]
+  | x :: a, b => by
+    simp only [List.cons_append, valueOfLE, valueOfLE_append r a b, List.length_cons, Nat.pow_succ]
+    ring
+theorem valueOfLE_lt {r : Nat} (ds : List Nat) (h : ∀ d ∈ ds, d < r) : valueOfLE r ds < r ^ ds.length := by
+  rw [← valueOf_reverse]
+  have := valueOf_lt (r := r) ds.reverse (by intro d hd; exact h d (by simpa using hd))
+  simpa using this
+
+theorem or_mul_pow {s c : Nat} (q : Nat) (h : c < 2 ^ s) : c ||| (q * 2 ^ s) = c + q * 2 ^ s := by
+  rw [Nat.or_comm, Nat.mul_comm, ← Nat.two_pow_add_eq_or_of_lt h q, Nat.add_comm]
+
+theorem packLoop_spec {w k c : Nat} {fs : Bool} {radix : Nat} (hw : w = k * c)
+    (hrad : radix = 2 ^ k) (h256 : radix % 256 = radix) :
+    ∀ (bs : List Nat) (j acc : Nat), j + bs.length ≤ c → acc < 2 ^ (k * j) →
+    packLoop w fs radix k bs j acc =
+      if hasInvalid fs radix bs then none
+      else some (acc + 2 ^ (k * j) * valueOfLE radix (digs fs bs))
+  | [], j, acc, _, _ => by simp [packLoop, hasInvalid, valueOfLE]
+  | b :: bs, j, acc, hj, hacc => by
+    unfold packLoop hasInvalid
+    simp only [h256]
+    by_cases hd : byteToDigit fs b ≥ radix
+    · simp [hd]
+    · simp only [hd, if_false]
+      have hdlt : byteToDigit fs b < 2 ^ k := by omega
+      simp only [List.length_cons] at hj
+      have hP : 2 ^ (k * (j + 1)) = 2 ^ k * 2 ^ (k * j) := by
+        rw [← Nat.pow_add]; congr 1; ring
+      have hle : 2 ^ (k * (j + 1)) ≤ B w := by
+        unfold B; rw [hw]; exact Nat.pow_le_pow_right (by omega) (Nat.mul_le_mul_left _ (by omega))
+      generalize hPd : 2 ^ (k * j) = P at *
+      have hPpos : 0 < P := by rw [← hPd]; exact Nat.pow_pos (by omega)
+      have hdP : byteToDigit fs b * P < 2 ^ k * P := Nat.mul_lt_mul_of_pos_right hdlt hPpos
+      have hsh : (byteToDigit fs b <<< (j * k)) % B w = byteToDigit fs b * P := by
+        rw [Nat.shiftLeft_eq, Nat.mul_comm j k, hPd, Nat.mod_eq_of_lt (by omega)]
+      rw [hsh, ← hPd, or_mul_pow _ (by rw [hPd]; exact hacc), hPd]
+      have hacc' : acc + byteToDigit fs b * P < 2 ^ (k * (j + 1)) := by
+        rw [hP]
+        have : (byteToDigit fs b + 1) * P ≤ 2 ^ k * P := Nat.mul_le_mul_right _ hdlt
+        rw [Nat.add_mul] at this; omega
+      rw [packLoop_spec hw hrad h256 bs (j + 1) _ (by omega) hacc']
+      split
+      · rfl
+      · simp only [digs_cons, valueOfLE, hP, hrad]; congr 1; ring
+
+theorem packAll_spec {w k c : Nat} {fs : Bool} {radix : Nat} (hk : 1 ≤ k) (hc : 1 ≤ c)
+    (hw : w = k * c) (hrad : radix = 2 ^ k) (h256 : radix % 256 = radix) :
+    ∀ (f : Nat) (view : List Nat), view.length ≤ f →
+    (hasInvalid fs radix view = false →
+      ∃ ds, packAll w fs radix k c f view = some ds ∧ ds.length * c < view.length + c ∧
+        (∀ d ∈ ds, d < B w) ∧ U w ds = valueOfLE radix (digs fs view)) ∧
+    (hasInvalid fs radix view = true → packAll w fs radix k c f view = none) := by
+  have hBw : B w = radix ^ c := by unfold B; rw [hw, hrad, Nat.pow_mul]
+  intro f
+  induction f with
+  | zero =>
+    intro view hf
+    have : view = [] := List.eq_nil_of_length_eq_zero (by omega)
+    subst this
+    refine ⟨fun _ => ⟨[], rfl, by simp; omega, by simp, by simp [valueOfLE]⟩, fun h => ?_⟩
+    simp [hasInvalid] at h
+  | succ f ih =>
+    intro view hf
+    cases view with
+    | nil =>
+      refine ⟨fun _ => ⟨[], rfl, by simp; omega, by simp, by simp [valueOfLE]⟩, fun h => ?_⟩
+      simp [hasInvalid] at h
+    | cons b bs =>
+      generalize hv : b :: bs = view at *
+      have hlen : 0 < view.length := by rw [← hv]; simp
+      have hunf : packAll w fs radix k c (f + 1) view =
+          match packLoop w fs radix k (view.take c) 0 0 with
+          | none => none
+          | some d =>
+            match packAll w fs radix k c f (view.drop c) with
+            | none => none
+            | some ds => some (d :: ds) := by rw [← hv]; rfl
+      have hpl := packLoop_spec (fs := fs) hw hrad h256 (view.take c) 0 0
+        (by rw [List.length_take]; omega) (by simp)
+      simp only [Nat.mul_zero, Nat.pow_zero, Nat.one_mul, Nat.zero_add] at hpl
+      have hinv := hasInvalid_take_drop fs radix c view
+      have hdl : (view.drop c).length ≤ f := by rw [List.length_drop]; omega
+      obtain ⟨ih1, ih2⟩ := ih (view.drop c) hdl
+      rw [hunf, hpl]
+      constructor
+      · intro hval
+        rw [hval] at hinv
+        have hv1 : hasInvalid fs radix (view.take c) = false := by
+          cases h : hasInvalid fs radix (view.take c)
+          · rfl
+          · rw [h] at hinv; simp at hinv
+        have hv2 : hasInvalid fs radix (view.drop c) = false := by
+          cases h : hasInvalid fs radix (view.drop c)
+          · rfl
+          · rw [h] at hinv; simp at hinv
+        obtain ⟨ds, e1, e2, e3, e4⟩ := ih1 hv2
+        rw [hv1, e1]
+        simp only [Bool.false_eq_true, if_false]
+        have hlt : valueOfLE radix (digs fs (view.take c)) < radix ^ (view.take c).length := by
+          have := valueOfLE_lt (r := radix) (digs fs (view.take c))
+            (by have := hasInvalid_false_iff.mp hv1; rwa [h256] at this)
+          rwa [digs_length] at this
+        have hpw : radix ^ (view.take c).length ≤ radix ^ c :=
+          Nat.pow_le_pow_right (by rw [hrad]; exact Nat.pow_pos (by omega))
+            (by rw [List.length_take]; omega)
+        refine ⟨_, rfl, ?_, ?_, ?_⟩
+        · simp only [List.length_cons, Nat.add_mul, Nat.one_mul]
+          rw [List.length_drop] at e2
+          by_cases hcl : c ≤ view.length
+          · omega
+          · have : view.drop c = [] := List.drop_eq_nil_of_le (by omega)
+            rw [this] at e1
+            have : ds = [] := by
+              cases f <;> simp [packAll] at e1 <;> exact e1
+            subst this; simp; omega
+        · intro d hd
+          rcases List.mem_cons.mp hd with h | h
+          · rw [h, hBw]; omega
+          · exact e3 d h
+        · rw [U_cons, e4]
+          conv => rhs; rw [← List.take_append_drop c view, digs_append, valueOfLE_append, digs_length]
+          by_cases hcl : c ≤ view.length
+          · rw [List.length_take, Nat.min_eq_left hcl, hBw]
+          · have : view.drop c = [] := List.drop_eq_nil_of_le (by omega)
+            rw [this]; simp [valueOfLE]
+      · intro hval
+        rw [hval] at hinv
+        cases hv1 : hasInvalid fs radix (view.take c)
+        · have hv2 : hasInvalid fs radix (view.drop c) = true := by
+            rw [hv1] at hinv; simpa using hinv.symm
+          rw [ih2 hv2]
+          simp
+        · simp
 
 end Radix
 end Bnum
